@@ -1,8 +1,8 @@
 INIT Init
 NEXT Next
 CONSTANTS
-  Dev = {"skip_only_function"}
-  Kinds = {"sig"}
+  Dev = {"prop_deprecated_unread"}
+  Kinds = {"property"}
   Strict = FALSE
   Full = FALSE
   MaxCnt = 1
